@@ -474,6 +474,11 @@ var edits = []edit{
 		t.Cols = append(t.Cols, c)
 		return true
 	}},
+	{"add-col-nonconst-default", func(g *G, s *Schema, t *Table) bool { // must go through the rebuild: ALTER TABLE refuses it on a table with rows
+		c := Col{Name: g.freshCol(t), Type: "integer", Null: g.r.Bool(), Def: &Def{Raw: true, V: g.pick([]string{"random()", "abs(random())", "1 + abs(-3)"})}}
+		t.Cols = append(t.Cols, c)
+		return true
+	}},
 	{"add-col-notnull-nodefault", func(g *G, s *Schema, t *Table) bool {
 		c := g.col(g.freshCol(t), t.Strict)
 		c.Null, c.Def = false, nil
